@@ -54,9 +54,9 @@ def cases(tier, seed):
         yield {"fam": "many", "i": i}
     for i in range(2 if tier == "quick" else 8):
         yield {"fam": "big", "i": i}
+    yield {"fam": "big", "i": 100}  # 2^24 voxels
     if tier == "thorough":
         yield {"fam": "huge", "i": 0}
-        yield {"fam": "big", "i": 100}
 
 
 def setup(ctx):
